@@ -8,7 +8,7 @@
 (* initial-style primitives (call) are bound as ONE primitive.             *)
 (*                                                                         *)
 (* StEval(p, inputs, H) is that loop over the JaxIR program p with a       *)
-(* handler that handles the set of ops H (and returns zeros for them).     *)
+(* handler that handles the set of ops H (returning zeros of the shape).   *)
 (* The property is  StEval(p, x, {}) = EvalProg(p, x)  for every program   *)
 (* and valuation: role A checks it on the spec for every program TLC       *)
 (* builds (Transparent) and that a handling handler is observable          *)
@@ -22,8 +22,9 @@ RECURSIVE StEnv(_, _, _, _)
 StEnv(eqs, i, env, H) ==
   IF i > Len(eqs) THEN env
   ELSE LET e == eqs[i] IN
-       LetIn(IF e.op \in H THEN Norm([j \in 1..NOutEq(e) |-> <<0>>]) ELSE EvalEq(e, env),
-             LAMBDA outs : StEnv(eqs, i + 1, env \o outs, H))
+       LetIn(EvalEq(e, env), LAMBDA real :
+         LetIn(IF e.op \in H THEN Norm([j \in 1..Len(real) |-> Norm([x \in 1..Len(real[j]) |-> 0])]) ELSE real,
+               LAMBDA outs : StEnv(eqs, i + 1, env \o outs, H)))
 StEval(p, inputs, H) == LetIn(StEnv(p.eqs, 1, inputs, H), LAMBDA env : Opnds(env, p.outs))
 
 Transparent == Len(prog.eqs) >= 1 =>
